@@ -17,6 +17,17 @@ def core(pid, sec, text):
                 level_note=CORE_NOTE,
                 technique="TLA+ spec (Core/CoreSpec) checked by TLC; edge-covering replay of the bounded state graph into the real core and TLC trace validation of recorded traces")
 
+SESS_NOTE = ("Trusted: TLC, the socket harness (sock_drv.rs: classification of server messages by transaction id, logical clock), the "
+             "post-processing in bin/sess.py (real-time order, removal of server-maintained $SYS information). Unix socket transport only; "
+             "schedules are sampled (concurrent runs), the linearizability decision per recorded execution is exhaustive.")
+
+def session(pid, sec, text):
+    c = core(pid, sec, text)
+    c["engine"] = "tlc-session"
+    c["level_note"] = SESS_NOTE
+    c["technique"] = "TLA+ spec (Session over CoreSpec) checked by TLC; real concurrent sessions over the unix socket; per-session logs validated by a position-vector linearizability search in TLC"
+    return c
+
 def persist(pid, sec, text):
     c = core(pid, sec, text)
     c["engine"] = "tlc-persist"
@@ -38,7 +49,14 @@ CHECKS = [
 
 CHECKS.append(persist("C10", "6/C10", "TLC explores every interleaving of mutation, the file-system steps of a flush, a crash between any two of them and the steps of the load chain (which itself moves the slot selector) and checks that a start recovers the last completed or the in-progress snapshot with registrations of the same snapshot; the real code is crashed after every file-system step (single, double, in-load) and every recorded step and recovered generation is validated against the spec."))
 
-PENDING = ["C02","C11","C12","C13","C15","C16","C17","C18","C19","C20"]
+CHECKS += [
+ session("C02", "6/C02", "TLC enumerates every interleaving of cget->cset cycles of 2-3 clients plus stale/future-version csets and plain sets on the contended key (one winner per version, no lost update, acceptance iff version matches via the reference layer); 2-4 unsynchronised real sessions run such cycles over the socket and TLC decides whether some atomic order of the requests explains every reply and the subscriber's event stream."),
+ session("C13", "6/C13", "TLC checks on the session-layer model that every well-formed request on an established session gets exactly one terminal message of the kind the protocol assigns; real sessions send all message kinds of v0 and v1 with valid and invalid arguments, pipelined, 1-3 at a time; terminal messages are paired with requests by transaction id, their kind and content and every event stream are validated against the spec."),
+ session("C15", "6/C15", "TLC checks the authorization gate, the refusal of requests outside the grants and that served requests touch only keys covered by the grants (documented relation); real sessions with minted tokens (valid grant sets, missing, garbage, forged, expired) mix authorised and unauthorised requests while an unrestricted observer reads the store back; validated by TLC."),
+ session("C17", "6/C17", "The developers' debug assertions are state invariants of the core model (clean trees, never down) checked by TLC over every alphabet; offender sessions send odd requests in any order and a catalogue of undecodable lines while a witness session's round trips must keep being answered correctly (debug build; a panic of the core task is an observation the spec cannot explain)."),
+]
+
+PENDING = ["C11","C12","C16","C18","C19","C20"]
 
 def main():
     import props
@@ -53,7 +71,9 @@ def main():
                         enable="the harness crate /verif/harness depends on /repo/worterbuch with default-features=false, features=[\"verif\",\"redb\"]",
                         baseline_off_cmd=BASELINE,
                         source_commits=["e19d4a5", "8c537d5", "d18b355"], add_only=True),
-             engines=[dict(name="tlc-persist", path="spec/Persist.tla spec/Trace_Persist.tla harness/src/persist_drv.rs",
+             engines=[dict(name="tlc-session", path="spec/Session.tla spec/Trace_Session.tla spec/MC_Session.tla spec/MC_C02.tla harness/src/sock_drv.rs bin/sess.py",
+                           serves_properties=["C02", "C13", "C15", "C17"], kind_free_text="session-layer TLA+ model, TLC, socket-level concurrent sessions, position-vector linearizability validation"),
+                      dict(name="tlc-persist", path="spec/Persist.tla spec/Trace_Persist.tla harness/src/persist_drv.rs",
                            serves_properties=["C10"], kind_free_text="TLA+ step machine of the flush / crash / load chain, TLC, crash-point enumeration with step tracing"),
                       dict(name="tlc-core", path="spec/Core.tla spec/CoreSpec.tla spec/Trace_Core.tla harness/src/core_drv.rs bin/check",
                            serves_properties=[c["property_id"] for c in checks],
